@@ -615,6 +615,45 @@ class World:
         self.compared = True
         self.ctx.hit("probe.archive_repacked_and_reread")
 
+    def op_load_via_symlink(self):
+        """Many rasters sharing one geometry header: the header next to the
+        data is a symbolic link to a header stored elsewhere under another
+        name; the data file sits beside the link."""
+        from hydrodiy.gis.grid import Grid
+        import shutil
+        cs = self.cs
+        keys = sorted(self.store)
+        key = keys[cs.draw("which", len(keys))]
+        m = self.store[key]
+        fbil = Path(key)
+        store = self.root / "geomstore"
+        work = self.root / "linked"
+        store.mkdir(exist_ok=True)
+        work.mkdir(exist_ok=True)
+        self.nid += 1
+        target = store / f"geometry{self.nid}.hdr"
+        shutil.copyfile(str(fbil.with_suffix(".hdr")), str(target))
+        link = work / f"day{self.nid}.hdr"
+        if cs.flip("relative_link", 50):
+            os.symlink(os.path.relpath(str(target), str(work)), str(link))
+        else:
+            os.symlink(str(target), str(link))
+        shutil.copyfile(str(fbil), str(link.with_suffix(".bil")))
+        self.log.ev("load_via_symlink", fbil.name)
+        self.ctx.hit("fault.header_is_a_symlink")
+        with warnings.catch_warnings():
+            warnings.simplefilter("ignore")
+            try:
+                g = Grid.from_header(self.path_arg(
+                    link if cs.flip("byhdr", 50) else link.with_suffix(".bil"),
+                    "sl"))
+            except Exception as e:
+                raise Violation("load_failed", f"loading through a symlinked "
+                                f"header raised {e!r}", "load_via_symlink")
+        check_grid(g, m, "grid loaded through a symlinked header",
+                   "load_via_symlink")
+        self.compared = True
+
     def op_widen_dtype(self):
         """The dtype setter converts the cells; the model is re-read (the
         setter is not under test) and the grid goes on through save/load."""
@@ -808,7 +847,7 @@ OPS = [("new", 8, None), ("mutate", 10, "g"), ("save", 9, "g"),
        ("clone", 6, "g"), ("clone_dtype", 5, "g"), ("clip", 6, "g"),
        ("chdir", 2, None), ("cat_caller_edits_grid", 2, "c"),
        ("zip_twice", 3, "s"), ("widen_dtype", 2, "g"),
-       ("rejected_clone", 2, "g"),
+       ("rejected_clone", 2, "g"), ("load_via_symlink", 2, "s"),
        ("restart", 2, "s"), ("cat_new", 3, None), ("cat_delineate", 6, "c"),
        ("cat_dict", 5, "c"), ("cat_clone", 2, "c")]
 
